@@ -18,7 +18,8 @@ ProgsC06 == {
   P(<<HoldOp("create")>>, <<Rd>>, <<Tr("append", "x")>>),
   P(<<Wr(<<"p", "q", "r">>)>>, <<HoldOp("r")>>, <<HoldOp("w")>>),
   P(<<Mx, Mx>>, <<Mx>>, <<Mx>>),
-  P(<<HoldOp("wx")>>, <<HoldOp("w")>>, <<Rd>>)
+  P(<<HoldOp("wx")>>, <<HoldOp("w")>>, <<Rd>>),
+  P(<<HoldOp("cf")>>, <<HoldOp("wf")>>, <<HoldOp("cf")>>)
 }
 \* C07: readers, writers and transformers of all length relations
 ProgsC07 == {
